@@ -6,10 +6,19 @@ From TV Require Import Lib.Obs C06.Model C06.ProofsBase C09.Model C09.Url C09.Re
                        C09.ProofsHeaders C09.ProofsRedirect C09.ProofsRedirectTop C09.ProofsMachineA.
 Local Open Scope N_scope.
 
+Lemma keys_norm_update_all : forall l h, keys_norm h -> keys_norm (update_all l h).
+Proof.
+  unfold update_all. induction l as [|kv l IH]; intros h H; simpl; [exact H|].
+  apply IH. apply keys_norm_set_item. exact H.
+Qed.
+
 Lemma initial_req_facts : forall rc r, initial_req rc = Some r ->
   r_url r = rc_url rc /\ keys_norm (r_headers r).
 Proof.
   intros rc r H. unfold initial_req in H.
+  destruct (rc_dict rc).
+  { inversion H; subst; clear H. simpl. split; [reflexivity|].
+    apply keys_norm_update_all. apply keys_norm_empty. }
   destruct (add_all (rc_headers rc) empty_h) as [r0 h0]. destruct r0; try discriminate.
   destruct (copy h0) as [r1 h] eqn:Ec. destruct r1; try discriminate. inversion H; subst; clear H. simpl.
   split; [reflexivity|]. replace h with (snd (copy h0)) by (rewrite Ec; reflexivity). apply keys_norm_copy.
@@ -32,7 +41,7 @@ Theorem fetch_chain_bounded : forall rc r,
    S (Z.to_nat (match rc_maxred rc with Some z => z | None => 5%Z end)))%nat.
 Proof.
   intros rc r Hi. pose proof (proj1 (chain_length (rc_ver rc) (rc_url rc) (rc_script rc) r)) as H.
-  unfold initial_req in Hi.
+  unfold initial_req in Hi. destruct (rc_dict rc); [inversion Hi; subst; clear Hi; exact H|].
   destruct (add_all (rc_headers rc) empty_h) as [r0 h0]. destruct r0; try discriminate.
   destruct (copy h0) as [r1 h]. destruct r1; try discriminate. inversion Hi; subst; clear Hi.
   exact H.
@@ -43,7 +52,7 @@ Qed.
    (h.add("Cookie","a=1"); h.add("cookie","b=2"); 302 from http://a.test/x to http://b.test/y). *)
 Definition ex_rc : rcase :=
   mkRCase (T "6.6") (T "http://a.test/x") (T "GET") None
-          [(T "Cookie", T "a=1"); (T "cookie", T "b=2"); (T "Authorization", T "tok")]
+          [(T "Cookie", T "a=1"); (T "cookie", T "b=2"); (T "Authorization", T "tok")] false
           None None None None None
           [mkHop 302 true (T "http://b.test/y")].
 
